@@ -128,6 +128,10 @@ func runC04NumRange(c *Ctx) {
 			}
 		})
 		construct := "(*ExprParser)." + name + "|literal outside the machine range"
+		if handles && name == "parseInt" && len(findCalls(fn, "strconv.ParseFloat")) > 0 {
+			c.bad(construct, fn.Pos(), "the fallback for an integer literal outside int64 is strconv.ParseFloat, which rejects a hexadecimal mantissa without exponent: `0xffffffffffffffff` is still a syntax error")
+			continue
+		}
 		if handles {
 			c.ok(construct, fn.Pos(), "strconv.ErrRange is distinguished from a malformed literal")
 		} else {
@@ -861,5 +865,697 @@ func runC01UnmarshalNil(c *Ctx) {
 	}
 	if n == 0 {
 		c.anchorMissing("map updates in UnmarshalYAML methods")
+	}
+}
+
+// ---- C02.LESS: comparators are evaluated over the finite set of orderings of their keys ----
+
+func init() {
+	register(&Rule{ID: "C02.LESS", Min: 2, Doc: "the position comparators are the strict lexicographic order of their keys (evaluated for every ordering of the keys)", Run: runC02Less})
+}
+
+type ordVal struct {
+	kind  string // "field", "int", "bool"
+	side  int    // 0 / 1 for field values
+	field string
+	n     int64
+	b     bool
+}
+
+// evalComparator runs fn on two abstract records whose fields are related by rel[field] in {-1,0,1} (record 0 versus record
+// 1; swapped exchanges the roles). sideOf classifies a pointer value as record 0 / 1.
+func evalComparator(fn *ssa.Function, rel map[string]int, sideOf func(v ssa.Value) (int, bool)) (result bool, ok bool) {
+	vals := map[ssa.Value]ordVal{}
+	var eval func(v ssa.Value) (ordVal, bool)
+	eval = func(v ssa.Value) (ordVal, bool) {
+		if r, ok := vals[v]; ok {
+			return r, true
+		}
+		switch x := v.(type) {
+		case *ssa.Const:
+			if n, ok := constInt(x); ok {
+				return ordVal{kind: "int", n: n}, true
+			}
+			if x.Value != nil && (x.Value.String() == "true" || x.Value.String() == "false") {
+				return ordVal{kind: "bool", b: x.Value.String() == "true"}, true
+			}
+		}
+		return ordVal{}, false
+	}
+	cmpFields := func(a, b ordVal) (int, bool) {
+		if a.kind == "field" && b.kind == "field" && a.field == b.field && a.side != b.side {
+			r, ok := rel[a.field]
+			if !ok {
+				return 0, false
+			}
+			if a.side == 1 {
+				r = -r
+			}
+			return r, true
+		}
+		if a.kind == "int" && b.kind == "int" {
+			switch {
+			case a.n < b.n:
+				return -1, true
+			case a.n > b.n:
+				return 1, true
+			}
+			return 0, true
+		}
+		return 0, false
+	}
+	blk := fn.Blocks[0]
+	var prev *ssa.BasicBlock
+	for steps := 0; steps < 200; steps++ {
+		for _, in := range blk.Instrs {
+			switch x := in.(type) {
+			case *ssa.Phi:
+				for i, p := range blk.Preds {
+					if p == prev {
+						r, ok := eval(x.Edges[i])
+						if !ok {
+							return false, false
+						}
+						vals[x] = r
+					}
+				}
+			case *ssa.FieldAddr, *ssa.IndexAddr, *ssa.DebugRef:
+				// resolved at the load
+			case *ssa.UnOp:
+				switch x.Op {
+				case token.MUL:
+					if fa, ok := x.X.(*ssa.FieldAddr); ok {
+						// the record: the field's base, possibly loaded from by[i]
+						base := fa.X
+						if ld, ok := base.(*ssa.UnOp); ok && ld.Op == token.MUL {
+							base = ld.X
+						}
+						if s, ok := sideOf(base); ok {
+							name := fieldAddrName(fa)
+							if i := strings.LastIndex(name, "."); i >= 0 {
+								name = name[i+1:]
+							}
+							vals[x] = ordVal{kind: "field", side: s, field: name}
+							continue
+						}
+					}
+					// a pointer load (by[i]): keep the side through sideOf at the field access
+				case token.NOT:
+					r, ok := eval(x.X)
+					if !ok || r.kind != "bool" {
+						return false, false
+					}
+					vals[x] = ordVal{kind: "bool", b: !r.b}
+				}
+			case *ssa.Call:
+				if calleeFullName(&x.Call) == "strings.Compare" {
+					a, ok1 := eval(x.Call.Args[0])
+					b, ok2 := eval(x.Call.Args[1])
+					if !ok1 || !ok2 {
+						return false, false
+					}
+					c, ok := cmpFields(a, b)
+					if !ok {
+						return false, false
+					}
+					vals[x] = ordVal{kind: "int", n: int64(c)}
+				} else {
+					return false, false
+				}
+			case *ssa.BinOp:
+				a, ok1 := eval(x.X)
+				b, ok2 := eval(x.Y)
+				if !ok1 || !ok2 {
+					return false, false
+				}
+				c, ok := cmpFields(a, b)
+				if !ok {
+					return false, false
+				}
+				var r bool
+				switch x.Op {
+				case token.LSS:
+					r = c < 0
+				case token.GTR:
+					r = c > 0
+				case token.LEQ:
+					r = c <= 0
+				case token.GEQ:
+					r = c >= 0
+				case token.EQL:
+					r = c == 0
+				case token.NEQ:
+					r = c != 0
+				default:
+					return false, false
+				}
+				vals[x] = ordVal{kind: "bool", b: r}
+			case *ssa.If:
+				r, ok := eval(x.Cond)
+				if !ok || r.kind != "bool" {
+					return false, false
+				}
+				prev = blk
+				if r.b {
+					blk = blk.Succs[0]
+				} else {
+					blk = blk.Succs[1]
+				}
+			case *ssa.Jump:
+				prev = blk
+				blk = blk.Succs[0]
+			case *ssa.Return:
+				r, ok := eval(x.Results[0])
+				if !ok || r.kind != "bool" {
+					return false, false
+				}
+				return r.b, true
+			default:
+				return false, false
+			}
+		}
+	}
+	return false, false
+}
+
+func runC02Less(c *Ctx) {
+	p := c.P
+	type cmpSpec struct {
+		fn   *ssa.Function
+		keys []string
+		side func(v ssa.Value) (int, bool)
+	}
+	var specs []cmpSpec
+	if fn := p.Method("Pos", "IsBefore"); fn != nil {
+		specs = append(specs, cmpSpec{fn, []string{"Line", "Col"}, func(v ssa.Value) (int, bool) {
+			for i, prm := range fn.Params {
+				if v == ssa.Value(prm) {
+					return i, true
+				}
+			}
+			return 0, false
+		}})
+	} else {
+		c.anchorMissing("(*Pos).IsBefore")
+	}
+	var less *ssa.Function
+	for _, f := range p.Funcs {
+		if FuncName(f) == "(ByErrorPosition).Less" {
+			less = f
+		}
+	}
+	if less != nil {
+		specs = append(specs, cmpSpec{less, []string{"Filepath", "Line", "Column"}, func(v ssa.Value) (int, bool) {
+			ia, ok := v.(*ssa.IndexAddr)
+			if !ok {
+				return 0, false
+			}
+			for i, prm := range less.Params[1:] {
+				if ia.Index == ssa.Value(prm) {
+					return i, true
+				}
+			}
+			return 0, false
+		}})
+	} else {
+		c.anchorMissing("(ByErrorPosition).Less")
+	}
+	for _, sp := range specs {
+		construct := FuncName(sp.fn) + "|strict lexicographic order of " + strings.Join(sp.keys, ", ")
+		n := 1
+		for range sp.keys {
+			n *= 3
+		}
+		bad := ""
+		undecided := false
+		for code := 0; code < n && bad == ""; code++ {
+			rel := map[string]int{}
+			x := code
+			desc := []string{}
+			for _, k := range sp.keys {
+				rel[k] = x%3 - 1
+				x /= 3
+				desc = append(desc, fmt.Sprintf("%s%s", k, map[int]string{-1: "<", 0: "=", 1: ">"}[rel[k]]))
+			}
+			want := false
+			for _, k := range sp.keys {
+				if rel[k] != 0 {
+					want = rel[k] < 0
+					break
+				}
+			}
+			got, ok := evalComparator(sp.fn, rel, sp.side)
+			if !ok {
+				undecided = true
+				break
+			}
+			if got != want {
+				bad = fmt.Sprintf("for %s it answers %v, the lexicographic order says %v", strings.Join(desc, " "), got, want)
+			}
+		}
+		switch {
+		case undecided:
+			c.undecided(construct, sp.fn.Pos(), "the comparator uses an operation the evaluator does not model")
+		case bad != "":
+			c.bad(construct, sp.fn.Pos(), bad+": the comparator is not a strict order (a and b can each be before the other), so minima taken while ranging over a map and sort results depend on the order of visiting")
+		default:
+			c.ok(construct, sp.fn.Pos(), fmt.Sprintf("all %d orderings of the keys evaluated: irreflexive, asymmetric, first differing key decides", n))
+		}
+	}
+}
+
+// ---- rules written after the seeds of round 6 (letters I, J) were missed ----
+
+func init() {
+	register(&Rule{ID: "C03.MUSTSCAN", Min: 3, Doc: "every function that hands a scalar to the placeholder scan does so on every path on which the scalar exists", Run: runC03MustScan})
+	register(&Rule{ID: "C06.JSONMERGE", Min: 1, Doc: "the element types of a JSON array literal are merged unconditionally", Run: runC06JSONMerge})
+	register(&Rule{ID: "C09.CYCLESTART", Min: 1, Doc: "the job at which a cycle is reported is chosen among the jobs of the cycle by position, not by where the search entered it", Run: runC09CycleStart})
+	register(&Rule{ID: "C14.REQDECODE", Min: 2, Doc: "`required` of a metadata input is decoded as a YAML boolean, not compared as text", Run: runC14ReqDecode})
+	register(&Rule{ID: "C15.STDINPROJ", Min: 1, Doc: "the repository of a file given on stdin with a file name is looked up like that of any other file", Run: runC15StdinProj})
+	register(&Rule{ID: "C16.SPLITCR", Min: 1, Doc: "a carriage return at the end of a buffer is not taken for a line break before the next byte is known", Run: runC16SplitCR})
+	register(&Rule{ID: "C18.ALLROOTS", Min: 1, Doc: "the cycle search gives up only after every job was a root of the search", Run: runC18AllRoots})
+	register(&Rule{ID: "C19.DUPALWAYS", Min: 1, Doc: "duplicates in literal rows are looked for whatever the include section contains", Run: runC19DupAlways})
+	register(&Rule{ID: "C20.RESET", Min: 2, Doc: "the per-job shell of the tool rules is reset to unspecified, so that the workflow default applies to the next job", Run: runC20Reset})
+}
+
+func runC03MustScan(c *Ctx) {
+	p := c.P
+	scan := p.Method("RuleExpression", "checkExprsIn")
+	if scan == nil {
+		c.anchorMissing("(*RuleExpression).checkExprsIn")
+		return
+	}
+	n := 0
+	seen := map[*ssa.Function]bool{}
+	for _, e := range p.callersOf(scan) {
+		fn := e.Caller.Func
+		if e.Site == nil || seen[fn] || !inPkgName(fn) {
+			continue
+		}
+		seen[fn] = true
+		n++
+		construct := FuncName(fn) + "|scan on every path"
+		calls := findCalls(fn, "(*RuleExpression).checkExprsIn")
+		// blocks from which a return is reached without passing a call; conditions allowed on such paths: nil tests of a
+		// parameter (no scalar)
+		stop := map[*ssa.BasicBlock]bool{}
+		for _, cl := range calls {
+			stop[cl.Block()] = true
+		}
+		badCond := ""
+		var walk func(b *ssa.BasicBlock, vis map[*ssa.BasicBlock]bool, okNil bool)
+		walk = func(b *ssa.BasicBlock, vis map[*ssa.BasicBlock]bool, okNil bool) {
+			if vis[b] || stop[b] || badCond != "" {
+				return
+			}
+			vis[b] = true
+			last := b.Instrs[len(b.Instrs)-1]
+			switch t := last.(type) {
+			case *ssa.Return:
+				if !okNil {
+					badCond = "a return is reached without the scan at " + p.Pos(t.Pos())
+				}
+			case *ssa.If:
+				v, nilSucc, isNil := nilTest(t)
+				_, isParam := v.(*ssa.Parameter)
+				for i, s := range b.Succs {
+					walk(s, vis, okNil || (isNil && isParam && i == nilSucc))
+				}
+			default:
+				for _, s := range b.Succs {
+					walk(s, vis, okNil)
+				}
+			}
+		}
+		walk(fn.Blocks[0], map[*ssa.BasicBlock]bool{}, false)
+		if badCond == "" {
+			c.ok(construct, fn.Pos(), "every path on which the scalar is not nil passes checkExprsIn")
+		} else {
+			c.bad(construct, fn.Pos(), badCond+": a scalar can be skipped under a condition other than its absence (for example a test that needs the closing }}, which lets `${{ github.ref` through unreported)")
+		}
+	}
+	if n == 0 {
+		c.anchorMissing("callers of checkExprsIn")
+	}
+}
+
+func runC06JSONMerge(c *Ctx) {
+	p := c.P
+	fn := p.Func("typeOfJSONValue")
+	if fn == nil {
+		c.anchorMissing("typeOfJSONValue")
+		return
+	}
+	n := 0
+	eachInstr(fn, func(b *ssa.BasicBlock, _ int, in ssa.Instruction) {
+		call, ok := in.(*ssa.Call)
+		if !ok || !call.Call.IsInvoke() || call.Call.Method.Name() != "Merge" || !blockInCycle(b) {
+			return
+		}
+		n++
+		construct := fmt.Sprintf("typeOfJSONValue|merge of element types#%d", n)
+		guard := ""
+		for ifi := range controllingConds(b) {
+			if mentionsInvoke(ifi.Cond, "EqualTypes", 0) || mentionsInvoke(ifi.Cond, "Assignable", 0) {
+				guard = "a type comparison"
+			}
+		}
+		if guard == "" {
+			c.ok(construct, call.Pos(), "every element (or colliding key) is merged")
+		} else {
+			c.bad(construct, call.Pos(), "the merge is skipped under "+guard+": `any` compares equal to every type, so an element that should widen the type to any is ignored and `fromJSON('[[\"x\"], []]')[1][0].name` is rejected while the more precise literal is accepted")
+		}
+	})
+	if n == 0 {
+		c.anchorMissing("Merge calls in the loops of typeOfJSONValue")
+	}
+}
+
+func mentionsInvoke(v ssa.Value, method string, d int) bool {
+	if d > 6 {
+		return false
+	}
+	switch x := v.(type) {
+	case *ssa.Call:
+		if x.Call.IsInvoke() && x.Call.Method.Name() == method {
+			return true
+		}
+		if f := staticCallee(&x.Call); f != nil && f.Name() == method {
+			return true
+		}
+	case *ssa.UnOp:
+		return mentionsInvoke(x.X, method, d+1)
+	case *ssa.BinOp:
+		return mentionsInvoke(x.X, method, d+1) || mentionsInvoke(x.Y, method, d+1)
+	case *ssa.Phi:
+		for _, e := range x.Edges {
+			if mentionsInvoke(e, method, d+1) {
+				return true
+			}
+		}
+	}
+	return false
+}
+
+func runC09CycleStart(c *Ctx) {
+	p := c.P
+	fn := p.Method("RuleJobNeeds", "VisitWorkflowPost")
+	if fn == nil {
+		c.anchorMissing("(*RuleJobNeeds).VisitWorkflowPost")
+		return
+	}
+	// the report of the cycle: the Error call whose message comes from a strings.Builder
+	var report ssa.CallInstruction
+	for _, call := range findCalls(fn, "(*RuleBase).Error") {
+		report = call
+	}
+	if report == nil {
+		c.anchorMissing("cycle report in (*RuleJobNeeds).VisitWorkflowPost")
+		return
+	}
+	// its position: jobNode.pos of a value that is a loop-carried minimum chosen with IsBefore
+	pos := report.Common().Args[1]
+	f, base := fieldLoad(pos)
+	construct := "(*RuleJobNeeds).VisitWorkflowPost|job at which the cycle is reported"
+	if f != "jobNode.pos" {
+		c.bad(construct, report.Pos(), "the cycle is not reported at the position of a job node")
+		return
+	}
+	ph, isPhi := base.(*ssa.Phi)
+	usesIsBefore := false
+	if isPhi {
+		for _, call := range findCalls(fn, "(*Pos).IsBefore") {
+			if blockInCycle(call.Block()) {
+				usesIsBefore = true
+			}
+		}
+	}
+	if isPhi && usesIsBefore && blockInCycleWith(ph) {
+		c.ok(construct, report.Pos(), "the earliest job of the cycle, found by comparing positions over the cycle's jobs")
+	} else {
+		c.bad(construct, report.Pos(), "the cycle is reported at "+symName(base)+", the job where the search closed or entered the cycle: a job outside the cycle that needs one of its members changes where (and with which text) the cycle is reported")
+	}
+}
+
+func blockInCycleWith(ph *ssa.Phi) bool { return blockInCycle(ph.Block()) }
+
+func runC14ReqDecode(c *Ctx) {
+	p := c.P
+	n := 0
+	for _, fn := range p.Funcs {
+		if fn.Name() != "UnmarshalYAML" {
+			continue
+		}
+		file := p.File(fn.Pos())
+		if !strings.HasSuffix(file, "/action_metadata.go") && !strings.HasSuffix(file, "/reusable_workflow.go") {
+			continue
+		}
+		for _, call := range findCalls(fn, "(*gopkg.in/yaml.v3.Node).Decode") {
+			mi, ok := call.Common().Args[1].(*ssa.MakeInterface)
+			if !ok {
+				continue
+			}
+			pt, ok := mi.X.Type().Underlying().(*types.Pointer)
+			if !ok {
+				continue
+			}
+			st, ok := pt.Elem().Underlying().(*types.Struct)
+			if !ok {
+				continue
+			}
+			for i := 0; i < st.NumFields(); i++ {
+				if !strings.Contains(st.Tag(i), `yaml:"required"`) {
+					continue
+				}
+				n++
+				construct := fmt.Sprintf("%s|decoding of `required`", FuncName(fn))
+				t := st.Field(i).Type()
+				if b, ok := t.Underlying().(*types.Basic); ok && b.Info()&types.IsString != 0 {
+					c.bad(construct, call.Pos(), "`required` is decoded as text and compared with a spelling: `required: True` (a YAML boolean) is not required, so a call site that omits the input gets no \"missing input\"")
+				} else {
+					c.ok(construct, call.Pos(), "decoded as "+typeStr(t))
+				}
+			}
+		}
+	}
+	if n == 0 {
+		c.anchorMissing("Decode into a struct with a field tagged yaml:\"required\"")
+	}
+}
+
+func runC15StdinProj(c *Ctx) {
+	p := c.P
+	fn := p.Method("Linter", "Lint")
+	if fn == nil {
+		c.anchorMissing("(*Linter).Lint")
+		return
+	}
+	ats := findCalls(fn, "(*Projects).At")
+	if len(ats) == 0 {
+		c.anchorMissing("(*Projects).At in (*Linter).Lint")
+		return
+	}
+	construct := "(*Linter).Lint|project of a file given on stdin"
+	bad := ""
+	for ifi := range controllingConds(ats[0].Block()) {
+		bo, ok := ifi.Cond.(*ssa.BinOp)
+		if !ok || (bo.Op != token.NEQ && bo.Op != token.EQL) {
+			continue
+		}
+		if _, isParam := bo.X.(*ssa.Parameter); !isParam {
+			continue
+		}
+		if _, isConst := bo.Y.(*ssa.Const); isConst {
+			continue
+		}
+		if f, _ := fieldLoad(bo.Y); f == "Linter.stdin" {
+			bad = "the look-up is skipped when the path equals Linter.stdin, which LintStdin always passes"
+		}
+	}
+	if bad == "" {
+		c.ok(construct, ats[0].Pos(), "only the placeholder name <stdin> (no file name given) skips the look-up")
+	} else {
+		c.bad(construct, ats[0].Pos(), bad+": with -stdin-filename the repository configuration (paths/ignore) is never applied to the file")
+	}
+}
+
+func runC16SplitCR(c *Ctx) {
+	p := c.P
+	fn := p.Func("scanYAMLLines")
+	if fn == nil {
+		c.anchorMissing("scanYAMLLines")
+		return
+	}
+	atEOF := fn.Params[1]
+	n := 0
+	okAll := true
+	var badPos token.Pos
+	for _, b := range fn.Blocks {
+		ret, ok := b.Instrs[len(b.Instrs)-1].(*ssa.Return)
+		if !ok {
+			continue
+		}
+		adv := linOf(ret.Results[0], 0)
+		// advance == position of the break + 1: the break is taken to be one byte long
+		if adv["1"] != 1 || len(adv) != 2 {
+			continue
+		}
+		n++
+		// allowed when the next byte exists (i+1 < len(data)) or the input is complete (atEOF)
+		allowed := false
+		for ifi, outcome := range controllingConds(b) {
+			if ifi.Cond == ssa.Value(atEOF) && outcome {
+				allowed = true
+			}
+			if bo, ok := ifi.Cond.(*ssa.BinOp); ok && bo.Op == token.LSS && outcome {
+				if isLenOf(bo.Y, fn.Params[0]) {
+					allowed = true
+				}
+			}
+		}
+		if !allowed {
+			okAll = false
+			badPos = ret.Pos()
+		}
+	}
+	construct := "scanYAMLLines|carriage return at the end of the buffer"
+	switch {
+	case n == 0:
+		c.anchorMissing("one-byte line break in scanYAMLLines")
+	case okAll:
+		c.ok(construct, fn.Pos(), "a one-byte break is only taken when the next byte is known or the input is complete")
+	default:
+		c.bad(construct, badPos, "a CR that is the last byte of a buffer is taken for a line break although the LF of a CR LF pair may follow in the next buffer: in a CRLF file with a CR at offset 4095 every later snippet shows the wrong line")
+	}
+}
+
+func runC18AllRoots(c *Ctx) {
+	p := c.P
+	fn := p.Func("detectFirstCycle")
+	if fn == nil {
+		c.anchorMissing("detectFirstCycle")
+		return
+	}
+	construct := "detectFirstCycle|no-cycle answer"
+	bad := ""
+	n := 0
+	for _, b := range fn.Blocks {
+		ret, ok := b.Instrs[len(b.Instrs)-1].(*ssa.Return)
+		if !ok || len(ret.Results) != 1 || !isNilConst(ret.Results[0]) {
+			continue
+		}
+		n++
+		if !onlyLoopExits(fn, b) {
+			bad = p.Pos(ret.Pos())
+		}
+	}
+	switch {
+	case n == 0:
+		c.anchorMissing("return nil in detectFirstCycle")
+	case bad == "":
+		c.ok(construct, fn.Pos(), "nil is returned only after the loop over all jobs")
+	default:
+		c.bad(construct, fn.Pos(), "nil is returned at "+bad+" under a condition other than the end of the loop over the jobs: some graphs with a cycle (a single self-dependent job, for instance) get no diagnostic")
+	}
+}
+
+func runC19DupAlways(c *Ctx) {
+	p := c.P
+	fn := p.Method("RuleMatrix", "VisitJobPre")
+	if fn == nil {
+		c.anchorMissing("(*RuleMatrix).VisitJobPre")
+		return
+	}
+	calls := findCalls(fn, "(*RuleMatrix).checkDuplicateInRow")
+	if len(calls) == 0 {
+		c.anchorMissing("checkDuplicateInRow in (*RuleMatrix).VisitJobPre")
+		return
+	}
+	construct := "(*RuleMatrix).VisitJobPre|duplicate check of literal rows"
+	bad := ""
+	// the loop over the rows: a test of the include/exclude sections must not lead to a return that bypasses its header
+	stop := map[*ssa.BasicBlock]bool{}
+	for _, h := range loopHeaders(fn) {
+		if naturalLoop(h)[calls[0].Block()] {
+			stop[h] = true
+		}
+	}
+	if len(stop) == 0 {
+		stop[calls[0].Block()] = true
+	}
+	for _, b := range fn.Blocks {
+		ifi, ok := b.Instrs[len(b.Instrs)-1].(*ssa.If)
+		if !ok {
+			continue
+		}
+		what := ""
+		if mentionsInvoke(ifi.Cond, "ContainsExpression", 0) {
+			what = "a test of ContainsExpression"
+		}
+		if v, _, ok := nilTest(ifi); ok {
+			if f, _ := fieldLoad(v); f == "Matrix.Include" || f == "Matrix.Exclude" {
+				what = "a test of " + f
+			}
+		}
+		if what == "" {
+			continue
+		}
+		for _, sc := range b.Succs {
+			if stop[sc] {
+				continue
+			}
+			for blk := range reachableBlocks([]*ssa.BasicBlock{sc}, stop) {
+				if _, isRet := blk.Instrs[len(blk.Instrs)-1].(*ssa.Return); isRet {
+					bad = what
+				}
+			}
+		}
+	}
+	if bad == "" {
+		c.ok(construct, calls[0].Pos(), "reached whenever the matrix itself is not an expression")
+	} else {
+		c.bad(construct, calls[0].Pos(), "the duplicate check is conditional on "+bad+": duplicates in literal rows go unreported when include is dynamic")
+	}
+}
+
+func runC20Reset(c *Ctx) {
+	p := c.P
+	for _, typ := range []string{"RuleShellcheck", "RulePyflakes"} {
+		fn := p.Method(typ, "VisitJobPost")
+		if fn == nil {
+			c.anchorMissing("(*" + typ + ").VisitJobPost")
+			continue
+		}
+		n := 0
+		eachInstr(fn, func(_ *ssa.BasicBlock, _ int, in ssa.Instruction) {
+			st, ok := in.(*ssa.Store)
+			if !ok {
+				return
+			}
+			fa, ok := st.Addr.(*ssa.FieldAddr)
+			if !ok {
+				return
+			}
+			n++
+			construct := "(*" + typ + ").VisitJobPost|reset of " + fieldAddrName(fa)
+			zero := false
+			if k, ok := st.Val.(*ssa.Const); ok {
+				if k.Value == nil {
+					zero = true
+				} else if n, ok := constInt(k); ok && n == 0 {
+					zero = true
+				} else if s, ok := constString(k); ok && s == "" {
+					zero = true
+				}
+			}
+			if zero {
+				c.ok(construct, st.Pos(), "reset to the zero value (unspecified)")
+			} else {
+				c.bad(construct, st.Pos(), "the per-job shell is reset to "+symName(st.Val)+" instead of the unspecified value: the workflow default no longer applies to the jobs that follow, so their scripts are not passed to the tool")
+			}
+		})
+		if n == 0 {
+			c.anchorMissing("reset in (*" + typ + ").VisitJobPost")
+		}
 	}
 }
